@@ -158,7 +158,7 @@ var C06 = &sim.Scenario{
 	Components: components,
 	Runs: func(th bool) int {
 		if th {
-			return 600000
+			return 3000000
 		}
 		return 30000
 	},
